@@ -2,8 +2,10 @@
 // Renders the REAL configopaque.String, alone and inside container shapes, through fmt (every
 // verb x flag set x width/precision), Sprint/Sprintln/Errorf, encoding/json, goyaml.v3, the four
 // methods and the explicit conversion; plus decoding through json and yaml.
-//   case term:  CRender shape secret [(path, observed output, address printed); ...]
-//               CUnm ctx text stored
+//
+//	case term:  CRender shape secret [(path, observed output, address printed); ...]
+//	            CUnm ctx text stored
+//
 // Direct oracle (independent of the Coq model): for each path and shape the output is the same
 // for ten adversarial secrets and contains none of them (raw, hex, base64, quoted, json-escaped).
 // Oracle-only paths (no model): sigs.k8s.io/yaml (JSON based), encoding/gob, Sprintf with extra
@@ -14,10 +16,14 @@ import (
 	"bytes"
 	"encoding/gob"
 	"encoding/json"
+	"encoding/xml"
 	"fmt"
+	"log"
+	"log/slog"
 	"strconv"
 	"strings"
 	"testing"
+	"text/template"
 
 	sigsyaml "sigs.k8s.io/yaml"
 	yaml3 "sigs.k8s.io/yaml/goyaml.v3"
@@ -50,6 +56,9 @@ func vFmtPath(verb string, bits, w, p int) *vPath {
 			if sh.hasUnexported() {
 				return "fmt-unexported-field"
 			}
+			if (verb == "s" || verb == "q") && sh.hasDeepPtr() {
+				return "fmt-inner-pointer-verb"
+			}
 			return "unexplained"
 		},
 	}
@@ -70,6 +79,21 @@ func vCauseJSON(sh *vShape) string {
 }
 
 func vCauseNone(*vShape) string { return "unexplained" }
+
+// slog's text handler prints non-TextMarshaler values with fmt's %+v
+func vCauseSlogText(sh *vShape) string {
+	if sh.hasUnexported() {
+		return "fmt-unexported-field"
+	}
+	return "unexplained"
+}
+
+func vDropTime(_ []string, a slog.Attr) slog.Attr {
+	if a.Key == slog.TimeKey {
+		return slog.Attr{}
+	}
+	return a
+}
 
 func vErrStr(b []byte, err error) string {
 	if err != nil {
@@ -106,20 +130,52 @@ func vOtherPaths() []*vPath {
 				return "ERR " + err.Error()
 			}
 			return buf.String()
-		}, cause: func(sh *vShape) string {
+		}, cause: vCauseNone, emptyOmitted: true},
+		{label: "text/template {{.}} and {{printf \"%v\" .}}", render: func(v any) string {
+			var b bytes.Buffer
+			if err := template.Must(template.New("t").Parse("{{.}}|{{printf \"%v\" .}}|{{print .}}")).Execute(&b, v); err != nil {
+				return "ERR " + err.Error()
+			}
+			return b.String()
+		}, cause: vCauseFmtV},
+		{label: "encoding/xml", render: func(v any) string {
+			b, err := xml.Marshal(v)
+			if err != nil {
+				return "ERR" // (maps are unsupported; the message does not contain values)
+			}
+			return string(b)
+		}, cause: vCauseNone},
+		{label: "log.Printf(%v)", render: func(v any) string {
+			var b bytes.Buffer
+			log.New(&b, "", 0).Printf("cfg=%v", v)
+			return b.String()
+		}, cause: vCauseFmtV},
+		{label: "slog text handler", render: func(v any) string {
+			var b bytes.Buffer
+			slog.New(slog.NewTextHandler(&b, &slog.HandlerOptions{ReplaceAttr: vDropTime})).Info("m", "k", v)
+			return b.String()
+		}, cause: vCauseSlogText},
+		{label: "slog json handler", render: func(v any) string {
+			var b bytes.Buffer
+			slog.New(slog.NewJSONHandler(&b, &slog.HandlerOptions{ReplaceAttr: vDropTime})).Info("m", "k", v)
+			return b.String()
+		}, cause: vCauseJSON},
+		{label: "fmt.Sprintf(\"x\", v) extra operand", render: func(v any) string { return fmt.Sprintf("x", v) }, cause: vCauseFmtV},
+		{label: "fmt.Sprintf(\"%[1]v %[1]q\")", render: func(v any) string { return fmt.Sprintf("%[1]v %[1]q", v) }, cause: func(sh *vShape) string {
 			if sh.hasUnexported() {
-				return "unexplained"
+				return "fmt-unexported-field"
+			}
+			if sh.hasDeepPtr() {
+				return "fmt-inner-pointer-verb"
 			}
 			return "unexplained"
 		}},
-		{label: "fmt.Sprintf(\"x\", v) extra operand", render: func(v any) string { return fmt.Sprintf("x", v) }, cause: vCauseFmtV},
-		{label: "fmt.Sprintf(\"%[1]v %[1]q\")", render: func(v any) string { return fmt.Sprintf("%[1]v %[1]q", v) }, cause: vCauseFmtV},
 		{label: "fmt.Sprintf(\"%*v\", 20, v)", render: func(v any) string { return fmt.Sprintf("%*v", 20, v) }, cause: vCauseFmtV},
 		{label: "fmt.Sprint(\"a\", v, v)", render: func(v any) string { return fmt.Sprint("a", v, v) }, cause: vCauseFmtV},
 		{label: "fmt.Fprintf(%v)+Sprintf(%s) of the result", render: func(v any) string {
 			var b bytes.Buffer
 			fmt.Fprintf(&b, "%v|%+v|", v, v)
-			return fmt.Sprintf("%s", b.String())
+			return fmt.Sprintf("%s", b.String()) // (the operand of %s is a plain string here)
 		}, cause: vCauseFmtV},
 	}
 }
@@ -138,14 +194,14 @@ func vBadVerbs() []string {
 	return l
 }
 
-var vWP = [][2]int{{0, 0}, {15, 0}, {0, 4}, {15, 4}, {0, 1}, {4, 0}}
+var vWP = [][2]int{{0, 0}, {15, 0}, {0, 4}, {15, 4}, {0, 1}, {4, 0}, {15, 1}}
 
 func TestVerifC14(t *testing.T) {
 	out := vOpen()
 	defer out.Close()
 	rng := vNewRand(14)
 	tier := vTier()
-	thorough := tier != "quick"
+	thorough := tier == "thorough" // the "search" tier re-runs the quick enumeration (the oracle is exhaustive there)
 	r := vNewRunner(out)
 	other := vOtherPaths()
 	bad := vBadVerbs()
@@ -167,14 +223,19 @@ func TestVerifC14(t *testing.T) {
 				}
 			}
 		}
-		// (2) every other verb: plain, and with a random flag set / width / precision
-		// (thorough: all 32 flag sets)
+		// (2) every other verb: plain, and with a random flag set / width / precision (thorough: all 32
+		// flag sets for d t c p w T e U b o z !, three random ones for the rest)
 		for _, verb := range bad {
 			paths = append(paths, vFmtPath(verb, 0, 0, 0))
-			if thorough {
+			if thorough && strings.Contains("dtcpwTeUboz!", verb) {
 				for bits := 1; bits < 32; bits++ {
 					wp := vWP[rng.Intn(len(vWP))]
 					paths = append(paths, vFmtPath(verb, bits, wp[0], wp[1]))
+				}
+			} else if thorough {
+				for k := 0; k < 3; k++ {
+					wp := vWP[rng.Intn(len(vWP))]
+					paths = append(paths, vFmtPath(verb, 1+rng.Intn(31), wp[0], wp[1]))
 				}
 			} else if shi < 8 || rng.Intn(3) == 0 {
 				wp := vWP[rng.Intn(len(vWP))]
